@@ -157,6 +157,65 @@ def t_update_real(ctx):
             ctx.check('C12.typed_bad', r.status == 'error' and r.result is None, shape=shape, value=repr(value), status=r.status)
 
 
+def t_result_type(ctx):
+    """Resolution of the declared result type per event class: generic parameter, inheritance, explicit field override, explicit
+    argument — for every instantiation order of a small class hierarchy (the order is chosen through the solver; classes are
+    created afresh on every path because the library caches the resolved type on the class)."""
+    import itertools
+    from typing import Any
+
+    class RA(env.BaseEvent[int]):
+        pass
+
+    class RB(env.BaseEvent):
+        pass
+
+    class RC(RA):                       # inherits int
+        pass
+
+    class RD(RA):                       # re-declares explicitly
+        event_result_type: Any = str
+
+    class RE(env.BaseEvent[list[int]]):
+        pass
+
+    class RF(RE):
+        event_result_type: Any = dict[str, int]
+
+    classes = [('RA', RA, int), ('RB', RB, None), ('RC', RC, int), ('RD', RD, str), ('RE', RE, list[int]), ('RF', RF, dict[str, int])]
+    perms = list(itertools.permutations(range(len(classes))))
+    pi = int(ctx.int('order', 0, len(perms) - 1)) if ctx.cfg.get('all_orders') else None
+    if pi is None:
+        # the orders that matter are which of (parent, child) is instantiated first: fork over a 6-bit choice
+        first = [bool(ctx.flag(f'late_{n}')) for (n, _, _) in classes]
+        order = [i for i in range(len(classes)) if not first[i]] + [i for i in range(len(classes)) if first[i]]
+    else:
+        order = list(perms[pi])
+    got = {}
+    for i in order:
+        n, cls, exp = classes[i]
+        e = cls()
+        got[n] = e.event_result_type
+    for n, cls, exp in classes:
+        e2 = cls()       # second instance: served from the class-level cache
+        ctx.check('C12.declared_type_resolved', got[n] == exp and e2.event_result_type == exp, cls=n, got=str(got[n]), second=str(e2.event_result_type), want=str(exp))
+        e3 = cls(event_result_type=bytes)
+        ctx.check('C12.declared_type_resolved', e3.event_result_type is bytes, cls=n, why='explicit argument must win')
+
+    # the resolved type is the one results are validated against
+    def h(ev):
+        return None
+    e = RD()
+    r = e.event_result_update(handler=h, status='started')
+    r.update(result='42')
+    ctx.check('C12.typed_ok', r.status == 'completed' and r.result == '42' and isinstance(r.result, str), got=repr(r.result), status=r.status)
+    e = RC()
+    r = e.event_result_update(handler=h, status='started')
+    r.update(result='not a number')
+    ctx.check('C12.typed_bad', r.status == 'error' and r.result is None, status=r.status)
+    ctx.rec('K', order=''.join(str(i) for i in order))
+
+
 # =========================================================================== accessors
 KINDS_FULL = ('none', 'int0', 'int7', 'dictA', 'dictB', 'dictAB', 'dictE', 'list', 'listE', 'event', 'errValue', 'errCancelled', 'retExc')
 KINDS_SMALL = ('none', 'int7', 'dictA', 'dictAB', 'list', 'event', 'errValue', 'retExc')
@@ -321,7 +380,7 @@ def _same(a, b):
     return a == b
 
 
-TEMPLATES = {'k.update': t_update, 'k.update_real': t_update_real, 'k.accessors': t_accessors}
+TEMPLATES = {'k.update': t_update, 'k.update_real': t_update_real, 'k.accessors': t_accessors, 'k.result_type': t_result_type}
 
 
 def jobs(tier):
@@ -331,6 +390,7 @@ def jobs(tier):
                        witnesses=() if shape == 'none' else ('validator accepted', 'validator rejected')))
     for i in range(len(REAL_CASES)):
         out.append(Job('C12', 'k.update_real', t_update_real, dict(case=i)))
+    out.append(Job('C12', 'k.result_type', t_result_type, dict(all_orders=(tier == 'thorough'))))
     for acc in ACCESSORS:
         if tier == 'quick':
             out.append(Job('C12', 'k.accessors', t_accessors, dict(n=2, accessor=acc, kinds='full', include='table'), witnesses=('value', 'raise:same', 'raise:ValueError')))
